@@ -89,6 +89,9 @@ structure Cfg where
   maxH : Nat := 10
   maxFrames : Nat := 4
   maxLayers : Nat := 5
+  maxTags : Nat := 4
+  maxSlices : Nat := 2
+  maxKeys : Nat := 3
   tilesets : Bool := true
   tags : Bool := true
   slices : Bool := true
@@ -307,7 +310,7 @@ def programG (cfg : Cfg) : G Program := do
         chunks := chunks ++ [⟨.layer l, ← padG pad⟩] ++ (← maybeUD cfg pad)
       if cfg.tags then
         if ← chance 1 2 then
-          let n ← range 0 4
+          let n ← range 0 cfg.maxTags
           let ts ← (List.range n).mapM (fun _ => do
             pure (TagSpec.mk (← u16) (← u16) (UInt8.ofNat (← below 3))
                     (← pick [0, 1, 65535, (← u16)]) (← bytesN 6) (← u32) (← nameG)))
@@ -318,11 +321,11 @@ def programG (cfg : Cfg) : G Program := do
             for _ in [0:k] do
               chunks := chunks ++ [⟨← userDataG, ← padG pad⟩]
       if cfg.slices then
-        let n ← below 3
+        let n ← below (cfg.maxSlices + 1)
         for _ in [0:n] do
           let flags ← below 4
           let hi ← if ← chance 1 4 then (do let x ← below 100; pure (x * 4)) else pure 0
-          let nk ← below 4
+          let nk ← below (cfg.maxKeys + 1)
           let keys ← (List.range nk).mapM (fun _ => do
             pure (← u32, ← i32, ← i32, ← u32, ← u32, Slice9.mk (← i32) (← i32) (← u32) (← u32),
                   (← i32, ← i32)))
